@@ -65,10 +65,10 @@ CHECKS["C06"] = ("Coq theorems for all entry sets / messages: the prefix tree fi
     "(shared, nested and empty prefixes, MATCHING-REQUEST, NRC-CONST, global negative responses) plus a prefix-tree-independent oracle built from the implementation's own coding objects.",
     TB + "Coding objects' decoders are the codec model (scope as in C01-C05). Known findings: empty-constant-prefix, sibling-coding-object-fails.",
     "Rocq/Coq proof (trie induction, exactness of candidate filtering) + correspondence", "DESIGN.md §3 C06")
-CHECKS["C09"] = ("Coq theorems for every hierarchy / layer / fuel: unique names, local override, every visible object is local or inherited from a parent and not excluded, every non-excluded parent name is visible; priority table obligation regenerated from source. "
+CHECKS["C09"] = ("Coq theorems for every hierarchy / layer / fuel: unique names, local override, every visible object is local or inherited from a parent and not excluded, every non-excluded parent name is visible; the object seen under an inherited name comes through a parent of maximal priority among the exposing parents and all exposing parents of that priority expose the same object (else not IOk: a conflict is reported); priority table obligation regenerated from source. "
     "Model (transcription of _compute_available_objects incl. dictionary order, priority comparison through the parent, conflict test) tied to loaded ODX hierarchies by correspondence for 5 categories plus an independent declarative visibility oracle "
     "and decode of an inherited service.",
-    TB + "PARTIAL: which of two same-named parent objects wins and exactly when a conflict is reported is carried by correspondence + oracle (theorems give soundness/completeness of the name set, not the priority tie-break). Categories not generated: tables, state charts, unit groups, jobs.",
+    TB + "The converse 'a conflict is reported ONLY when two maximal-priority parents disagree' is carried by correspondence + oracle. Categories not generated: tables, state charts, unit groups, jobs.",
     "Rocq/Coq proof (dictionary invariant by induction over parent refs) + correspondence + declarative oracle", "DESIGN.md §3 C09")
 CHECKS["C15"] = ("Coq theorems: protocol-specific definition before generic (any instance list), value defaults; refutation of the pre-fix first-hit lookup; for every hierarchy and layer: keys (specification, protocol) are unique, a local definition wins, otherwise the parent folded in last (ascending priority order) which knows the key wins and ignorant parents change nothing. Model of the (spec, protocol)-keyed override through the hierarchy, get_comparam, get_value, get_subvalue tied to loaded hierarchies by correspondence; "
     "oracle: declarative override, specific-first lookup, default fallback, typed accessors equal the numeric content.",
